@@ -28,6 +28,7 @@ pub struct Scenario {
     pub drop_first_sync_request: bool,          // the first SyncRequest / BatchRequest of every node is lost
     pub seed: u64,
     pub latency: usize,                         // ticks between a frame being written and its delivery (after the asynchronous prefix)
+    pub late_to: Option<usize>,                 // during the asynchronous prefix every proposal to this node is held back (delayed, not lost)
 }
 
 pub struct Outcome {
@@ -121,7 +122,10 @@ pub fn run(sc: &Scenario, id_base: usize, tag: &str) -> Outcome {
             // asynchronous prefix: each frame is delivered now with probability 1/2, otherwise later (never lost)
             let mut keep = Vec::new();
             for f in pool.drain(..).map(|(_, f)| f).chain(delayed.drain(..)) {
-                if rng.chance(0.5) {
+                let held = sc.late_to == Some(f.to)
+                    && f.port == Port::Consensus
+                    && matches!(bincode::deserialize::<ConsensusMessage>(&f.data), Ok(ConsensusMessage::Propose(_)));
+                if !held && rng.chance(0.5) {
                     now.push(f);
                 } else {
                     keep.push(f);
@@ -265,6 +269,7 @@ fn scenario_from(a: &Args, kind: &str, seed: u64) -> Scenario {
         drop_first_sync_request: false,
         seed,
         latency: a.usize("latency", if kind == "live" || kind == "lag" { 3 } else { 2 }),
+        late_to: None,
     };
     match kind {
         "live" => {
@@ -276,6 +281,12 @@ fn scenario_from(a: &Args, kind: &str, seed: u64) -> Scenario {
                 sc.crash.push((x, rng.below(40)));
             }
             sc.async_until = rng.below(40);
+            // in half of the runs one live node receives no proposal at all before the network stabilises -- for longer than a round timeout,
+            // so it times out of rounds whose blocks it has not seen and gets them afterwards ("delayed arbitrarily but not lost")
+            if rng.chance(0.5) && !nodes.is_empty() {
+                sc.late_to = Some(nodes[rng.below(nodes.len())]);
+                sc.async_until = 24 + rng.below(24);
+            }
             sc.ticks = a.usize("ticks", 220);
         }
         "lag" => {
@@ -351,7 +362,7 @@ pub fn main(rest: &[String]) -> i32 {
             }
             e2e = json!(res);
         }
-        let summary = json!({"t":"summary","kind":kind,"n":sc.n,"crash":sc.crash,"isolate":sc.isolate.map(|(a,b,c)| vec![a,b,c]).unwrap_or_default(),"async_until":sc.async_until,
+        let summary = json!({"t":"summary","kind":kind,"n":sc.n,"crash":sc.crash,"isolate":sc.isolate.map(|(a,b,c)| vec![a,b,c]).unwrap_or_default(),"async_until":sc.async_until,"late_to":sc.late_to.map(|x| x as i64).unwrap_or(-1),
             "stable_from":stable_from,"ticks":sc.ticks,"timeout_ticks": sc.timeout_delay / sc.dt,"live":live,"nodes":per_node,"submitted":o.submitted.len(),
             "e2e":e2e,"withheld_from":sc.withhold_batches_to.map(|x| x as i64).unwrap_or(-1),"drop_first_sync":sc.drop_first_sync_request,
             "helper_replies_checked":o.helper_replies_checked,"helper_replies_bad":o.helper_replies_bad,
